@@ -193,6 +193,23 @@ fn main() {
                     }
                 }
             }
+            "floodhard" => {
+                // like a shell loop of echo: keeps writing whatever write() says; only SIGPIPE (default action) ends it
+                let fd: i32 = p[1].parse().unwrap();
+                let chunk = [b'z'; 4096];
+                // (the Rust runtime of this stub has set SIGPIPE to "ignore": put back what the image was started with)
+                if unsafe { SIGPIPE_AT_START } == 0 {
+                    unsafe { libc::signal(libc::SIGPIPE, libc::SIG_DFL) };
+                }
+                // never outlive a check that went wrong
+                unsafe {
+                    libc::signal(libc::SIGALRM, libc::SIG_DFL);
+                    libc::alarm(45);
+                }
+                loop {
+                    unsafe { libc::write(fd, chunk.as_ptr() as _, chunk.len()) };
+                }
+            }
             "errline" => {
                 let line = format!("{}\n", p[1..].join(" "));
                 unsafe { libc::write(2, line.as_ptr() as _, line.len()) };
